@@ -68,14 +68,50 @@ def parse_attrs(attr_text):
     return out
 
 
+INT_TYS = r"(?:usize|u8|u16|u32|u64|i8|i16|i32|i64|isize)"
+
+
+def normalise_source(src):
+    """Semantics-preserving spellings a maintainer may use are brought to one form before any pattern is applied:
+    type aliases of integer types are expanded; integer constants (of any integer type, possibly defined through
+    earlier constants and arithmetic) are substituted where they are *used inside attributes and generic
+    arguments*. Returns (normalised source, constants)."""
+    for m in list(re.finditer(r"\btype\s+(\w+)\s*=\s*(" + INT_TYS + r")\s*;", src)):
+        src = re.sub(r"\b%s\b(?!\s*=)" % re.escape(m.group(1)), m.group(2), src)
+    consts = {}
+    for _ in range(4):   # constants may refer to earlier ones
+        for m in re.finditer(r"const\s+(\w+)\s*:\s*" + INT_TYS + r"\s*=\s*([^;]+);", src):
+            if m.group(1) in consts:
+                continue
+            e = m.group(2)
+            e = re.sub(r"\b(u8|u16|u32)::MAX\b", lambda t: str({"u8": 255, "u16": 65535, "u32": 4294967295}[t.group(1)]), e)
+            e = re.sub(r"\s+as\s+" + INT_TYS, "", e)
+            e = re.sub(r"\b([A-Z][A-Z0-9_]*)\b", lambda t: str(consts[t.group(1)]) if t.group(1) in consts else t.group(0), e)
+            try:
+                consts[m.group(1)] = eval_int(e, {}, "const")
+            except TranslateError:
+                pass
+    if consts:
+        names = sorted(consts, key=len, reverse=True)
+        pat = re.compile(r"\b(" + "|".join(re.escape(n) for n in names) + r")\b")
+        out, i = [], 0
+        while True:
+            j = src.find("#[", i)
+            if j < 0:
+                out.append(src[i:])
+                break
+            k = balanced(src, j + 1, "[", "]")
+            out.append(src[i:j])
+            out.append(pat.sub(lambda t: str(consts[t.group(1)]), src[j:k]))
+            i = k
+        src = "".join(out)
+    return src, consts
+
+
 def scan_file(rel, D):
-    src = strip_comments(read(rel))
+    src, consts = normalise_source(strip_comments(read(rel)))
     D.files[rel] = src
-    for m in re.finditer(r"const\s+(\w+)\s*:\s*usize\s*=\s*([^;]+);", src):
-        try:
-            D.consts[m.group(1)] = eval_int(m.group(2), {}, rel)
-        except TranslateError:
-            pass
+    D.consts.update(consts)
     for m in re.finditer(r"impl\s+(?:binrw::|insim_core::binrw::)?BinRead\s+for\s+(\w+)", src):
         D.customs.add(m.group(1))
     for m in re.finditer(r"impl\s+(?:binrw::|insim_core::binrw::)?BinWrite\s+for\s+(\w+)", src):
@@ -207,6 +243,21 @@ def field_ty(D, f, where, counts):
         fl = D.flags[ty]
         return {"k": "flags", "name": ty, "w": fl["w"], "consts": fl["consts"], "trunc": True}
     # calc / count
+    if has(r"bw\(\s*calc\s*=") and "br(temp)" in attrs:
+        attrs = [a for a in attrs if a != "br(temp)"]     # implied by calc under #[binrw]
+        f["attrs"] = attrs
+        joined = " ".join(attrs)
+    # a calc through a one-expression private helper `fn f(p: ..) -> T { <expr> }` is inlined
+    mh = has(r"bw\(\s*calc\s*=\s*(\w+)\(\s*&?(\w+)\s*\)\s*\)")
+    if mh:
+        for srcf in D.files.values():
+            fm = re.search(r"fn\s+%s\s*\(\s*(\w+)\s*:[^)]*\)\s*->\s*\w+\s*\{\s*([^{};]+?)\s*\}" % re.escape(mh.group(1)), srcf)
+            if fm:
+                expr = re.sub(r"\b%s\b" % re.escape(fm.group(1)), mh.group(2), fm.group(2))
+                attrs = [("bw(calc = %s)" % expr) if re.fullmatch(r"bw\(\s*calc\s*=.*\)", a) else a for a in attrs]
+                f["attrs"] = attrs
+                joined = " ".join(attrs)
+                break
     m = has(r"bw\(\s*calc\s*=\s*(\w+)\.len\(\)\s+as\s+(\w+)\s*\)")
     if m:
         if m.group(2) != ty or ty not in PRIMS:
@@ -216,7 +267,7 @@ def field_ty(D, f, where, counts):
     m_other_calc = has(r"bw\(\s*calc\s*=")
     if m_other_calc:
         raise TranslateError(where, f"unsupported calc expression: {joined}")
-    m = has(r"br\(\s*count\s*=\s*(\w+)\s*\)")
+    m = has(r"br\(\s*count\s*=\s*(\w+)(?:\s+as\s+usize)?\s*\)")   # a widening cast of the count changes nothing
     vm = re.fullmatch(r"Vec<\s*(\w+)\s*>", ty)
     if m or vm:
         if not (m and vm):
@@ -402,8 +453,9 @@ def collect():
     if not re.search(r"#\[brw\(little\)\]", psrc):
         raise TranslateError("insim/src/packet.rs:enum Packet", "#[brw(little)] not found")
     kinds = []
-    for m in re.finditer(r"#\[brw\(\s*magic\s*=\s*(\d+)u8\s*\)\]\s*(\w+)\s*\(\s*(\w+)\s*\)\s*,", body):
-        kinds.append((m.group(2), int(m.group(1)), m.group(3)))
+    # the magic is any u8 literal: decimal / hex / binary, with or without `_` separators and the `u8` suffix
+    for m in re.finditer(r"#\[brw\(\s*magic\s*=\s*([0-9A-Fa-fxXbB_]+?)_?u8\s*\)\]\s*(\w+)\s*\(\s*(\w+)\s*\)\s*,", body):
+        kinds.append((m.group(2), eval_int(m.group(1), {}, "insim/src/packet.rs:enum Packet"), m.group(3)))
     n_variants = len(re.findall(r"\b\w+\s*\(\s*\w+\s*\)\s*,", body))
     if n_variants != len(kinds):
         raise TranslateError("insim/src/packet.rs:enum Packet", f"{n_variants} variants but {len(kinds)} with a readable magic")
@@ -464,6 +516,28 @@ def lean_tail(t):
     raise TranslateError("render", f"cannot render tail {t}")
 
 
+def plc_mapping(plc_impl, plc_consts):
+    """(read rows [(bit, vehicle)], write rows [(vehicle, bit)]) of PlcAllowedCarsSet: either the two hand-written
+    chains (`if (value & Self::X) == Self::X { data.insert(Vehicle::V) }` / `Vehicle::V => Self::X`) or one
+    `[(Vehicle::V, Self::X), ..]` table that both conversion functions iterate over"""
+    pr = [(plc_consts[m.group(1)], m.group(3)) for m in re.finditer(r"if\s*\(value\s*&\s*Self::(\w+)\)\s*==\s*Self::(\w+)\s*\{\s*data\.insert\(Vehicle::(\w+)\);", plc_impl) if m.group(1) == m.group(2)]
+    pw = [(m.group(1), plc_consts[m.group(2)]) for m in re.finditer(r"Vehicle::(\w+)\s*=>\s*Self::(\w+)\s*,", plc_impl)]
+    if pr or pw:
+        return pr, pw
+    tm = re.search(r"const\s+(\w+)\s*:\s*\[\s*\(\s*Vehicle\s*,\s*u32\s*\)\s*;\s*\d+\s*\]\s*=\s*\[(.*?)\]\s*;", plc_impl, flags=re.S)
+    if tm:
+        rows = [(v, plc_consts[c]) for v, c in re.findall(r"\(\s*Vehicle::(\w+)\s*,\s*Self::(\w+)\s*\)", tm.group(2))]
+        name = tm.group(1)
+        fb = re.search(r"fn\s+from_bits_truncate[^{]*\{(.*?)\n    \}", plc_impl, flags=re.S)
+        bb = re.search(r"fn\s+bits[^{]*\{(.*?)\n    \}", plc_impl, flags=re.S)
+        uses_table = fb and ("Self::" + name) in fb.group(1) and re.search(r"value\s*&\s*\*?bit\s*(!=\s*0|==\s*\*?bit)", fb.group(1))
+        # bits(): through the table directly or through a private lookup that searches it
+        uses_table_w = bb and (("Self::" + name) in bb.group(1) or re.search(r"Self::(\w+)\(", bb.group(1)) and ("Self::" + name) in plc_impl)
+        if uses_table and uses_table_w:
+            return [(b, v) for v, b in rows], rows
+    return [], []
+
+
 def translate():
     D, ls = layouts()
     L = ["-- GENERATED by translate/packets.py from insim/src/packet.rs, insim/src/insim/*.rs, insim/src/relay/*.rs,",
@@ -496,8 +570,7 @@ def translate():
     plc_src = D.files.get("insim/src/insim/plc.rs", "")
     plc_impl = block_after(plc_src, r"impl\s+PlcAllowedCarsSet\s*\{", "insim/src/insim/plc.rs:PlcAllowedCarsSet")
     plc_consts = {cm.group(1): eval_int(cm.group(2), {}, "plc.rs") for cm in re.finditer(r"const\s+(\w+)\s*:\s*u32\s*=\s*([^;]+);", plc_impl)}
-    pr = [(plc_consts[m.group(1)], m.group(3)) for m in re.finditer(r"if\s*\(value\s*&\s*Self::(\w+)\)\s*==\s*Self::(\w+)\s*\{\s*data\.insert\(Vehicle::(\w+)\);", plc_impl)]
-    pw = [(m.group(1), plc_consts[m.group(2)]) for m in re.finditer(r"Vehicle::(\w+)\s*=>\s*Self::(\w+)\s*,", plc_impl)]
+    pr, pw = plc_mapping(plc_impl, plc_consts)
     L.append("def plcRead : List (Nat × List Nat) := [" + ", ".join(f"({b}, {lean_name(v)})" for b, v in pr) + "]")
     L.append("def plcWrite : List (List Nat × Nat) := [" + ", ".join(f"({lean_name(v)}, {b})" for v, b in pw) + "]")
     L.append("/-- masks of the bitflags the hand-written codecs truncate to -/")
@@ -551,8 +624,7 @@ def translate():
     plc_src = D.files.get("insim/src/insim/plc.rs", "")
     plc_impl = block_after(plc_src, r"impl\s+PlcAllowedCarsSet\s*\{", "insim/src/insim/plc.rs:PlcAllowedCarsSet")
     plc_consts = {cm.group(1): eval_int(cm.group(2), {}, "plc.rs") for cm in re.finditer(r"const\s+(\w+)\s*:\s*u32\s*=\s*([^;]+);", plc_impl)}
-    plc_read = [(plc_consts[m.group(1)], m.group(3)) for m in re.finditer(r"if\s*\(value\s*&\s*Self::(\w+)\)\s*==\s*Self::(\w+)\s*\{\s*data\.insert\(Vehicle::(\w+)\);", plc_impl) if m.group(1) == m.group(2)]
-    plc_write = [(m.group(1), plc_consts[m.group(2)]) for m in re.finditer(r"Vehicle::(\w+)\s*=>\s*Self::(\w+)\s*,", plc_impl)]
+    plc_read, plc_write = plc_mapping(plc_impl, plc_consts)
     if len(plc_read) != len(plc_consts) or len(plc_write) != len(plc_consts):
         raise TranslateError("insim/src/insim/plc.rs:PlcAllowedCarsSet", f"{len(plc_consts)} constants but {len(plc_read)} read arms / {len(plc_write)} write arms")
     js = {"kinds": ls, "plc_read": plc_read, "plc_write": plc_write,
